@@ -387,8 +387,25 @@ def known_class(ver, req_tokens, d):
         return None
     if rc != 0:
         return None
-    if check_output(ver, req_tokens, d) is None:
+    why = check_output(ver, req_tokens, d)
+    if why is None:
         return None
+    if "item-name set" in why and ver != 1:
+        # write_uliteral(name, -1, …) counts code points and prints that many UNITS: a scalar data name holding a
+        # supplementary character loses its last unit(s)
+        toks = req_tokens
+        for i, t in enumerate(toks):
+            if t.startswith("L:-:"):
+                n = int(t.rpartition(":")[2])
+                if any(0xD800 <= u < 0xDC00 for x in toks[i + 1:i + 1 + n] for u in (unhexs(x) or [])):
+                    return "scalar-name-supplementary-character-truncated"
+    if why == "output has a line of %d characters" % (LINE + 1):
+        # a looped item whose name has LINE characters is written behind one blank in the loop header
+        names = request_strings(req_tokens)[0]
+        data = out_bytes(d.get("out"))
+        if any(len(norm_name(n)) == LINE for n in names) and all(
+                len(l) <= LINE or (len(l) == LINE + 1 and l.startswith(" _")) for l in data.decode("utf-8", "replace").split("\n")):
+            return "loop-header-name-fills-line"
     if d.get("prc") == 0 and d.get("errs") == "-" and equivalent(d.get("orig", ["-"]), d.get("back", ["-"]), tolerate=True) is None:
         # everything else of the oracle holds?
         d2 = dict(d)
@@ -405,7 +422,9 @@ def agree_obs(impl, model):
     if d.get("b") != 0:
         return True
     if "walkrc" in d:
-        return d.get("rc") == d.get("walkrc")          # the walk itself fails: cif_write must report the same code
+        # the recording walk failed (a loop without packets): the order in which the writer saw the CIF is unknown, the
+        # model cannot be run; the oracle still judges the result code
+        return True
     m = model.split(" ")
     if len(m) != 3 or m[0] != "w" or not m[1].startswith("rc=") or not m[2].startswith("out="):
         return False
@@ -463,7 +482,7 @@ def rand_text(r, ver=2):
         return boundary_text(r, ver)
     al = None
     if ver == 1:
-        al = list("abdegloptsv_#$'\";:\\?.[]{} \t\n") + (["é"] if r.random() < 0.05 else [])
+        al = list("abdegloptsv_#$'\";:\\?.[]{} \t\n") + (["é"] if r.random() < 0.01 else [])
     return cifdesc.rand_text(r, 8, al)
 
 
@@ -504,12 +523,86 @@ def make_value_fn(ver):
 
 VERSION = 2          # family `write11` (tools/gen/write11.py) is this module with VERSION = 1
 
+CODES2 = ["a", "b", "Blk", "d1", "é", "x_y", "\U0001f600z"]
+CODES1 = ["a", "b", "Blk", "d1", "x_y", "z.9"]
+NAMES2 = ["_a", "_b", "_c", "_d", "_e", "_item.x", "_item.y", "_Q", "_été"]
+NAMES1 = ["_a", "_b", "_c", "_d", "_e", "_item.x", "_item.y", "_Q", "_z[1]"]
+
+
+def w_name(r, ver, used):
+    for _ in range(40):
+        k = r.random()
+        if k < 0.04:
+            n = "_" + "n" * (r.choice([2030, 2040, 2044, 2045, 2046, 2047, 2048]) - 1)
+        elif ver == 1 and k < 0.06:
+            n = "_é"
+        elif ver != 1 and k < 0.06:
+            n = "_\U0001f600" + r.choice(["", "x"])
+        else:
+            n = r.choice(NAMES1 if ver == 1 else NAMES2)
+        if n.lower() not in used:
+            used.add(n.lower())
+            return n
+    n = "_n%d" % len(used)
+    used.add(n)
+    return n
+
+
+def w_loop(r, ver, used, scalar, value):
+    n = r.randint(1, 3)
+    names = [w_name(r, ver, used) for _ in range(n)]
+    if scalar:
+        toks = ["L:-:%d" % n] + [hexs(x) for x in names] + ["P"]
+        for _ in names:
+            toks += value(r)
+        return toks + ["Z"]
+    toks = ["L:%s:%d" % (r.choice(["~", hexs("cat"), hexs("c2")]), n)] + [hexs(x) for x in names]
+    for _ in range(r.randint(0 if r.random() < 0.02 else 1, 3)):
+        toks.append("P")
+        for _ in names:
+            toks += value(r)
+    return toks + ["Z"]
+
+
+def w_body(r, ver, depth, value):
+    used, toks, codes = set(), [], set()
+    if depth > 0:
+        for _ in range(r.randint(0, 2)):
+            c = r.choice(["f1", "f2", "F3", "s"] + ([] if ver == 1 else ["fé"]))
+            if c.lower() in codes:
+                continue
+            codes.add(c.lower())
+            toks += ["F:" + hexs(c)] + w_body(r, ver, depth - 1, value) + ["E"]
+    have_scalar = False
+    for _ in range(r.randint(0, 3)):
+        scalar = (not have_scalar) and r.random() < 0.5
+        have_scalar |= scalar
+        toks += w_loop(r, ver, used, scalar, value)
+    return toks
+
+
+def w_cif(r, ver, value):
+    toks, codes = [], set()
+    for _ in range(r.randint(1, 3)):
+        k = r.random()
+        if k < 0.03:
+            c = "c" * r.choice([2040, 2042, 2043])
+        elif ver == 1 and k < 0.05:
+            c = "é"
+        else:
+            c = r.choice(CODES1 if ver == 1 else CODES2)
+        if c.lower() in codes:
+            continue
+        codes.add(c.lower())
+        toks += ["B:" + hexs(c)] + w_body(r, ver, 2 if r.random() < 0.25 else (1 if r.random() < 0.6 else 0), value) + ["E"]
+    return toks
+
 
 def generate_for(ver, family, seed, tier):
     r = rng(seed, family)
     n = 500 if tier == "quick" else 12000
     for i in range(n):
-        toks = cifdesc.rand_cif(r, 3, 2 if r.random() < 0.3 else 1, make_value_fn(ver))
+        toks = w_cif(r, ver, make_value_fn(ver))
         yield "write %d %s" % (ver, " ".join(toks) if toks else "-")
 
 
